@@ -51,13 +51,14 @@ def run(ctx):
         if fn is None:
             r2.violate("C15|R2|anchor-missing|%s" % sname, "serialiser %s not found" % sname)
             continue
+        fn = ctx.inl(fn)        # the header loop may be a private helper taking `&response.headers`
         du = du_of(fn)
         cfg = cfg_of(fn)
         # iterated vector
         iter_base = None
         for bid, t in fn.calls():
             c = callee_name(t) or ""
-            if c.endswith("as std::iter::IntoIterator>::into_iter") and t["args"]:
+            if "IntoIterator" in c and c.endswith("::into_iter") and t["args"]:
                 v = du.val_operand(t["args"][0])
                 base = _headers_base(du, v)
                 if base is not None:
@@ -195,6 +196,8 @@ def _headers_base(du, v, depth=0):
         return None
     if v[0] == "call" and v[2]:
         return _headers_base(du, v[2][0], depth + 1)
+    if v[0] == "cast":
+        return _headers_base(du, v[2], depth + 1)
     return None
 
 
